@@ -186,7 +186,10 @@ class MessagePackDocument(HierDictDocument):
         return '{%s}%s' % (self.app.interface.get_tns(), mrs)
 
     def create_out_string(self, ctx, out_string_encoding='utf8'):
-        ctx.out_string = (msgpack.packb(o) for o in ctx.out_document)
+        # responses (faults above all) quote request data, which can hold lone
+        # surrogates when it came in as JSON: they can't be encoded as utf8.
+        ctx.out_string = (msgpack.packb(o, unicode_errors='replace')
+                                                      for o in ctx.out_document)
 
     def integer_from_bytes(self, cls, value):
         if isinstance(value, (six.text_type, six.binary_type)):
@@ -216,7 +219,10 @@ class MessagePackRpc(MessagePackDocument):
     MSGPACK_ERROR = 3
 
     def create_out_string(self, ctx, out_string_encoding='utf8'):
-        ctx.out_string = (msgpack.packb(o) for o in ctx.out_document)
+        # responses (faults above all) quote request data, which can hold lone
+        # surrogates when it came in as JSON: they can't be encoded as utf8.
+        ctx.out_string = (msgpack.packb(o, unicode_errors='replace')
+                                                      for o in ctx.out_document)
 
     def create_in_document(self, ctx, in_string_encoding=None):
         """Sets ``ctx.in_document``,  using ``ctx.in_string``.
